@@ -10,6 +10,7 @@ use std::io::{self, BufRead, BufWriter, Write};
 mod util;
 mod clock;
 mod conv;
+mod m_http;
 mod m_tcp;
 mod m_tls;
 mod m_db;
@@ -33,6 +34,7 @@ fn main() {
         "db" => m_db::run(&mut input, &mut out, rest),
         "tcp" => m_tcp::run(&mut input, &mut out, rest),
         "tls" => m_tls::run(&mut input, &mut out, rest),
+        "http" => m_http::run(&mut input, &mut out, rest),
         m => {
             eprintln!("unknown mode {m}");
             std::process::exit(2);
